@@ -90,8 +90,10 @@ Print Assumptions C05_nested_example.
 
 (* ---------- messages with lists (Proofs/DecodeTotalProofs.v) ---------- *)
 (* descriptions (xdesc): standard-length CODED-CONST / VALUE parameters, STRUCTUREs with or without BYTE-SIZE,
-   STATIC-FIELDs, DYNAMIC-LENGTH-FIELDs (unsigned count of any positive bit length) and END-OF-PDU-FIELDs of
-   structures, nested to any depth. For EVERY byte string the outcome of decoding is a dictionary or a decode error:
+   STATIC-FIELDs, DYNAMIC-LENGTH-FIELDs (unsigned count of any positive bit length), END-OF-PDU-FIELDs of
+   structures and MULTIPLEXERs (XMux: unsigned switch key of any positive bit length, any list of key ranges --
+   overlapping, empty or unordered --, cases with or without content, optional default case), nested to any depth.
+   For EVERY byte string the outcome of decoding is a dictionary or a decode error:
    no other error class, and the loops which run to the end of the PDU never exhaust their fuel, i.e. terminate *)
 Theorem C05_message_with_fields_total : forall ts d m,
   (forall t, In t ts -> (x_depth t <= d)%nat /\ x_wf t) ->
@@ -99,6 +101,37 @@ Theorem C05_message_with_fields_total : forall ts d m,
   dec_outcome_ok (decode_msg (map x_p ts) m).
 Proof. exact fields_decode_total. Qed.
 Print Assumptions C05_message_with_fields_total.
+
+(* the description language in full: what an xdesc stands for *)
+Theorem C05_multiplexer_description : forall nm kbl hl lims cs ds,
+  x_p (XMux nm kbl hl lims cs ds) =
+  P nm None None (KValue (DMux (nbytes_of kbl 0) 0 0 (DSimple (Std BUint None hl kbl None) CIdent BUint)
+                               (map (fun lp => MC (pname (snd lp)) (fst (fst lp)) (snd (fst lp)) (case_dop (snd lp)))
+                                    (combine lims (map x_p cs)))
+                               (match map x_p ds with d :: _ => Some (MC (pname d) 0 0 (case_dop d)) | [] => None end))
+                         None).
+Proof. intros. reflexivity. Qed.
+Print Assumptions C05_multiplexer_description.
+
+Example C05_multiplexer_example :
+  let u8 nm := mkF nm 8 BUint None true BUint None in
+  let u16 nm := mkF nm 16 BUint None true BUint None in
+  let mk ds := [XLeaf (mkF [115] 8 BUint None true BUint (Some (VInt 34)));
+                XMux [109] 8 true [(16, 31); (32, 32)]
+                     [XStruct [120] [XLeaf (u8 [97]); XLeaf (u16 [98])] None;
+                      XLeaf (mkF [121] 8 BUint None true BUint (Some (VInt 0)))] ds;
+                XEop [101] [XLeaf (u8 [122])]] in
+  let ts := mk [XStruct [100] [XLeaf (u8 [100])] None] in
+  (forall t, In t ts -> (x_depth t <= 2)%nat /\ x_wf t) /\
+  (4 * 2 + 3 <= fuel_of (map x_p ts))%nat /\
+  (exists v, decode_msg (map x_p ts) [34; 17; 7; 1; 2; 9; 9] = Ok v) /\
+  (exists v, decode_msg (map x_p ts) [34; 32; 9] = Ok v) /\
+  (exists v, decode_msg (map x_p ts) [34; 200; 5] = Ok v) /\
+  decode_msg (map x_p ts) [34; 17; 7; 1] = Err EDecode /\
+  decode_msg (map x_p ts) [34] = Err EDecode /\
+  decode_msg (map x_p (mk [])) [34; 200; 5] = Err EDecode.
+Proof. exact mux_decode_example. Qed.
+Print Assumptions C05_multiplexer_example.
 
 Example C05_fields_example :
   let u8 nm := mkF nm 8 BUint None true BUint None in
